@@ -60,8 +60,13 @@ def _build_large(rng, n):
     return Atoms(**kw)
 
 
+FLAVOUR = [0]
+
+
 def _one(a, m0, ids, listing, ctx, st, what):
     b = clone(a)
+    from vmon.oracle.util import flavour
+    st.seen("array_flavour", flavour(b, FLAVOUR[0]))
     try:
         if what == "pop":
             if listing is None:
@@ -88,6 +93,7 @@ def run_case(case, ctx):
     rng = np.random.default_rng(case["s"])
     st = ctx.stats
     n = case["n"]
+    FLAVOUR[0] = case["s"] % 5
     if case["kind"] == "large":
         a = _build_large(rng, n)
         m0 = AM.resolve(a)
@@ -156,6 +162,8 @@ def run_case(case, ctx):
     if n >= 2:
         for h in range(2 if case["kind"] == "exhaustive" else 4):
             b = clone(a)
+            from vmon.oracle.util import flavour
+            flavour(b, FLAVOUR[0] + h)
             m = m0
             step = 0
             while len(b) > 0 and step < 6:
@@ -215,6 +223,8 @@ def requirements(stats, tier):
         need.append("deletions of a dozen or more scattered atoms from a structure of thousands: %d" % stats.get("deletions_of_a_dozen_or_more_scattered_atoms"))
     if stats.get("later_deletions_from_an_object_that_still_had_terms") < (100 if tier == "quick" else 10000):
         need.append("second and later deletions on one object that still had terms: %d" % stats.get("later_deletions_from_an_object_that_still_had_terms"))
+    if stats.nseen("array_flavour") < 5:
+        need.append("array flavours of the structure (integer widths, memory order, read-only): %s" % sorted(stats.sets.get("array_flavour", [])))
     if stats.get("terms_listing_one_atom_twice") < (10 if tier == "quick" else 1000):
         need.append("terms that list one atom twice (bonded to its own image): %d" % stats.get("terms_listing_one_atom_twice"))
     if stats.get("pops_checked") < 20:
